@@ -182,7 +182,7 @@ pub fn answers(e: &Engine, qs: &[Query]) -> Vec<String> {
         };
         out.push(format!(
             "cos {} hide={} proc={} exc={} gh={} script={:?}",
-            u, sorted(&c.hide_selectors), sorted(&c.procedural_actions), sorted(&c.exceptions), c.generichide, c.injected_script
+            u, sorted(&c.hide_selectors), sorted(&c.procedural_actions), sorted(&c.exceptions), c.generichide, canon_script(&c.injected_script)
         ));
         for excs in [HashSet::new(), c.exceptions.clone()] {
             let sel = e.hidden_class_id_selectors(CLASSES.iter(), IDS.iter(), &excs);
@@ -190,6 +190,15 @@ pub fn answers(e: &Engine, qs: &[Query]) -> Vec<String> {
         }
     }
     out
+}
+
+/// `injected_script` is the concatenation of one `try { … } catch ( e ) { }` block per scriptlet
+/// in the iteration order of a per-call HashMap: the same engine returns the blocks in different
+/// orders on different calls.  Compared as a sorted list of blocks.
+pub fn canon_script(s: &str) -> Vec<String> {
+    let mut v: Vec<String> = s.split("try {\n").filter(|b| !b.is_empty()).map(|b| b.to_string()).collect();
+    v.sort();
+    v
 }
 
 pub fn build(rules: &[String], debug: bool, optimize: bool, perm: u8) -> Engine {
